@@ -138,103 +138,64 @@ deriving DecidableEq, Repr
 def CmpOp.swapNeg : CmpOp → CmpOp
   | .slt => .sle | .sle => .slt | .ult => .ule | .ule => .ult
 
+/-- the refinement step of `specNotEqualConsts` / `specialize_by_comparison_op`:
+`let new_result = self.eval(e).without_widening_hints().add_*_bound(&bound)?; self.specialize_by_expression_result(e, new_result)?` -/
+def boundStep (rec : Rec) (s : MSt) (e : Expression) (k : BoundKind) (bound : Int) : Option MSt :=
+  match (s.st.eval e).withoutHints.addBound k bound with
+  | none => none
+  | some n => rec s n
+
 /-- first half of `specialize_by_comparison_op`: the left operand is a constant `lb` (`w` bit) -/
 def specCmpLeftConst (recR : Rec) (s : MSt) (op : CmpOp) (w : Nat) (lb : Int) (r : Expression) : Option MSt :=
   match op with
-  | .slt =>
-    if lb = smax w then none
-    else match (s.st.eval r).withoutHints.addBound .sge (wrap w (lb + 1)) with
-      | none => none
-      | some n => recR s n
-  | .sle =>
-    match (s.st.eval r).withoutHints.addBound .sge lb with
-    | none => none
-    | some n => recR s n
-  | .ult =>
-    if lb = -1 then none       -- `Bitvector::unsigned_max_value`
-    else match (s.st.eval r).withoutHints.addBound .uge (wrap w (lb + 1)) with
-      | none => none
-      | some n => recR s n
-  | .ule =>
-    match (s.st.eval r).withoutHints.addBound .uge lb with
-    | none => none
-    | some n => recR s n
+  | .slt => if lb = smax w then none else boundStep recR s r .sge (wrap w (lb + 1))
+  | .sle => boundStep recR s r .sge lb
+  | .ult => if lb = -1 then none else boundStep recR s r .uge (wrap w (lb + 1))   -- `Bitvector::unsigned_max_value`
+  | .ule => boundStep recR s r .uge lb
 
 /-- second half: the right operand is a constant `rb` -/
 def specCmpRightConst (recL : Rec) (s : MSt) (op : CmpOp) (w : Nat) (rb : Int) (l : Expression) : Option MSt :=
   match op with
-  | .slt =>
-    if rb = smin w then none
-    else match (s.st.eval l).withoutHints.addBound .sle (wrap w (rb - 1)) with
-      | none => none
-      | some n => recL s n
-  | .sle =>
-    match (s.st.eval l).withoutHints.addBound .sle rb with
-    | none => none
-    | some n => recL s n
-  | .ult =>
-    if rb = 0 then none
-    else match (s.st.eval l).withoutHints.addBound .ule (wrap w (rb - 1)) with
-      | none => none
-      | some n => recL s n
-  | .ule =>
-    match (s.st.eval l).withoutHints.addBound .ule rb with
-    | none => none
-    | some n => recL s n
+  | .slt => if rb = smin w then none else boundStep recL s l .sle (wrap w (rb - 1))
+  | .sle => boundStep recL s l .sle rb
+  | .ult => if rb = 0 then none else boundStep recL s l .ule (wrap w (rb - 1))
+  | .ule => boundStep recL s l .ule rb
+
+/-- `if let Ok(bitvec) = self.eval(e).try_to_bitvec() { … }`: a step that is taken only if `e` evaluates to a
+single constant (`w` bit, signed value `b`) -/
+def stepIfConst (s : MSt) (e : Expression) (F : Nat → Int → Option MSt) : Option MSt :=
+  match (s.st.eval e).tryToBv with
+  | some (w, b) => F w b
+  | none => some s
+
+/-- `…?;` followed by the rest of the function -/
+def andThen (o : Option MSt) (F : MSt → Option MSt) : Option MSt :=
+  match o with
+  | none => none
+  | some s => F s
 
 /-- `specialize_by_comparison_op`: `l op r` is true -/
 def specComparisonOp (recL recR : Rec) (s : MSt) (op : CmpOp) (l r : Expression) : Option MSt :=
-  let s1 : Option MSt := match (s.st.eval l).tryToBv with
-    | some (w, lb) => specCmpLeftConst recR s op w lb r
-    | none => some s
-  match s1 with
-  | none => none
-  | some s =>
-    match (s.st.eval r).tryToBv with
-    | some (w, rb) => specCmpRightConst recL s op w rb l
-    | none => some s
+  andThen (stepIfConst s l fun w lb => specCmpLeftConst recR s op w lb r)
+    fun s => stepIfConst s r fun w rb => specCmpRightConst recL s op w rb l
 
 /-- "lhs == rhs" arm of `IntEqual`/`IntNotEqual`, the two steps before the pointer comparison -/
 def specEqualConsts (recL recR : Rec) (s : MSt) (l r : Expression) : Option MSt :=
-  let s1 : Option MSt := match (s.st.eval l).tryToBv with
-    | some (w, b) => recR s (DData.ofBvI w b)
-    | none => some s
-  match s1 with
-  | none => none
-  | some s =>
-    match (s.st.eval r).tryToBv with
-    | some (w, b) => recL s (DData.ofBvI w b)
-    | none => some s
+  andThen (stepIfConst s l fun w b => recR s (DData.ofBvI w b))
+    fun s => stepIfConst s r fun w b => recL s (DData.ofBvI w b)
 
 /-- "lhs == rhs" arm -/
 def specEqual (recL recR : Rec) (s : MSt) (l r : Expression) : Option MSt :=
-  match specEqualConsts recL recR s l r with
-  | none => none
-  | some s => specPointerComparison recL recR s true l r
+  andThen (specEqualConsts recL recR s l r) fun s => specPointerComparison recL recR s true l r
 
 /-- "lhs != rhs" arm, the two steps before the pointer comparison -/
 def specNotEqualConsts (recL recR : Rec) (s : MSt) (l r : Expression) : Option MSt :=
-  let s1 : Option MSt := match (s.st.eval l).tryToBv with
-    | some (_, b) =>
-      match (s.st.eval r).withoutHints.addBound .ne b with
-      | none => none
-      | some n => recR s n
-    | none => some s
-  match s1 with
-  | none => none
-  | some s =>
-    match (s.st.eval r).tryToBv with
-    | some (_, b) =>
-      match (s.st.eval l).withoutHints.addBound .ne b with
-      | none => none
-      | some n => recL s n
-    | none => some s
+  andThen (stepIfConst s l fun _ b => boundStep recR s r .ne b)
+    fun s => stepIfConst s r fun _ b => boundStep recL s l .ne b
 
 /-- "lhs != rhs" arm -/
 def specNotEqual (recL recR : Rec) (s : MSt) (l r : Expression) : Option MSt :=
-  match specNotEqualConsts recL recR s l r with
-  | none => none
-  | some s => specPointerComparison recL recR s false l r
+  andThen (specNotEqualConsts recL recR s l r) fun s => specPointerComparison recL recR s false l r
 
 def isZeroBv (d : DData) : Bool :=
   match d.tryToBv with
@@ -345,12 +306,29 @@ def isLeaf : Expression → Bool
   | _ => false
 
 /-- conditions of the proved fragment: a 1-byte variable (flag or temporary), one of the six integer
-comparisons of two leaves (either order), and `BoolNegate` of such conditions (any depth) -/
+comparisons of two different leaves of at most 8 bytes (either order), and `BoolNegate` of such conditions (any depth) -/
 def condFrag : Expression → Bool
   | .Var v => v.size == 1
-  | .BinOp op l r => isCmp6 op && isLeaf l && isLeaf r
+  | .BinOp op l r => isCmp6 op && isLeaf l && isLeaf r && decide (l.bytesize ≤ 8) && decide (l ≠ r)
   | .UnOp .BoolNegate a => condFrag a
   | _ => false
+
+/-- shape of a register value the theorem covers: absolute values (with or without top flag) or pointers
+without absolute part (not the mixture "pointer or constant"), distinct target identifiers (always true for a
+`BTreeMap`) -/
+def valueShapeOk (d : DData) : Bool :=
+  (d.rel.isEmpty || d.abs.isNone) && decide ((d.rel.map (·.1)).Nodup)
+
+def leafOk (s : MSt) : Expression → Bool
+  | .Var x => valueShapeOk (s.st.eval (.Var x))
+  | _ => true
+
+/-- state-dependent part of the fragment: every register the condition mentions holds a value of the covered shape -/
+def leavesOk (s : MSt) : Expression → Bool
+  | .Var x => leafOk s (.Var x)
+  | .BinOp _ l r => leafOk s l && leafOk s r
+  | .UnOp _ a => leavesOk s a
+  | _ => true
 
 /-- `specialize_pointer_comparison` does something: both operands are pointers to the same unique object -/
 def ptrCmpFires (s : MSt) (l r : Expression) : Bool :=
@@ -399,6 +377,18 @@ def checkDefForNullDereferences (s : MSt) (d : Def) : Option (MSt × Bool) :=
   | .Assign _ _ => some (s, false)
   | .Load _ a => go a
   | .Store a _ => go a
+
+/-- `check_def_for_null_dereferences` detects nothing: the absolute part of the address value (if any, and if it
+is a bounded interval) neither starts nor ends in the NULL window `(-1024, 1024)` -/
+def nullFree (s : MSt) : Def → Bool
+  | .Assign _ _ => true
+  | .Load _ a | .Store a _ =>
+    match (s.st.eval a).abs with
+    | none => true
+    | some abs =>
+      match tryToOffsetInterval abs with
+      | none => true
+      | some (st, en) => !(window st || window en)
 
 /-- `Context::update_def`: outer `none` = panic / outside the model (see `Stack.lean`), inner `none` = no
 successor state (certain NULL dereference) -/
